@@ -120,7 +120,8 @@ ApplyPair(M, m, rec, pr, isColl) ==
                     IN [ok |-> r.q.ok, v |-> [t |-> "qn", q |-> r.q], M |-> r.M]
                ELSE [ok |-> FALSE, v |-> pr[2], M |-> ra.M]
             ELSE IF IsTimeAttr(a) THEN
-               IF pr[2].t \in {"dt", "iso"}
+               \* a datetime, an ISO string, or a typed literal that converts to one of them
+               IF pr[2].t \in {"dt", "iso"} \/ (pr[2].t = "nlit" /\ pr[2].T = "dateTime")
                THEN [ok |-> TRUE, v |-> [t |-> "dt", v |-> pr[2].v], M |-> ra.M]
                ELSE [ok |-> FALSE, v |-> pr[2], M |-> ra.M]
             ELSE AutoConv(ra.M, m, pr[2])
